@@ -46,6 +46,26 @@ def _test_rows(repo, cls_name):
     return cls, f, rows
 
 
+def _n_count_calls(repo):
+    """.count() calls in TooManyN.test (locals expanded, the record parameter written READ) that are not one of the
+    case-insensitive forms"""
+    from ..repo import expand
+
+    c, f = repo.need_method("TooManyN", "test")
+    ps = params(f)
+    out = []
+    for n in ast.walk(f):
+        if isinstance(n, ast.Call) and isinstance(n.func, ast.Attribute) and n.func.attr == "count":
+            e = expand(f, n)
+            for x in ast.walk(e):
+                if isinstance(x, ast.Name) and x.id == ps[1]:
+                    x.id = "READ"
+            t = src(e)
+            if t not in N_COUNT_FORMS:
+                out.append(t)
+    return out
+
+
 N_COUNT_FORMS = {"READ.sequence.lower().count('n')", "READ.sequence.upper().count('N')"}
 
 
@@ -104,6 +124,12 @@ def r2_criteria(repo, report):
             if s is None or (eff[flag[0]] == "True") != (s < 0):
                 bad_init.append({"valuation": r.describe()["valuation"], "stores": eff})
         report.ob("C11.R2", "TooManyN.__init__", not bad_init and bool(stores), facts={"problems": bad_init[:2], "attrs": stores}, expected="a value below 1 is a fraction (is_proportion iff count < 1), the cutoff is the value itself", loc=repo.loc(init), cases=len(irows))
+        odd_counts = _n_count_calls(repo)
+        if odd_counts:
+            c_, f_ = repo.need_method("TooManyN", "test")
+            report.ob("C11.R2", "TooManyN.test N count", False, facts={"count_calls": odd_counts}, expected="the number of N is counted case-insensitively: sequence.lower().count('n')", loc=repo.loc(f_),
+                      why=f"the N count is built from {odd_counts[0]}: upper- and lower-case N are not counted together")
+            stores = None
         if stores:
             cls, f, rows = _test_rows(repo, "TooManyN")
             # find the N count expression by role: the numerator / the compared count
